@@ -49,7 +49,7 @@ def plan(tier, seed):
 
 def features(script):
     f = {"guarded_ut": 0, "ends": 0, "moves": 0, "uts": set(), "loops": 0}
-    ut_names = {"u", "v", "k1", "k2", "ytmp", "acc", "kinv", "ua", "va", "<state>za", "u2", "v2", "<state>y", "<p>u", "<state>w"}
+    ut_names = {"u", "v", "k1", "k2", "ytmp", "acc", "kinv", "ua", "va", "<state>za", "u2", "v2", "<state>y", "<p>u", "<state>w", "kb", "<p>yold"}
 
     def walk(ops, guarded):
         for op in ops:
@@ -153,6 +153,24 @@ def check_script(script, rec, do_valgrind, instrument=False):
     kind = asan_kind(err)
     bad = False
     if kind == "other-runtime-error":
+        # gfortran's bounds check stopped the program before any storage was touched ('array bound mismatch (3/0)'
+        # is also what an unassociated user-type pointer looks like to it).  Run again without the bounds check:
+        # if the sanitizer then reports an access to storage that is not there, it is this property's business
+        rec.count("runtime_errors_reported_by_the_bounds_check")
+        try:
+            with case_alarm(240):
+                from vf import fort as _fort
+                obs2 = ftn.execute(script, flags=[f for f in _fort.SAN_FLAGS if not f.startswith("-fcheck")]
+                                   + ["-fcheck=do,mem"],
+                                   env={"ASAN_OPTIONS": "detect_leaks=0:halt_on_error=1:abort_on_error=0:exitcode=23"},
+                                   instrument=instrument, heap_state=heap)
+        except CaseTimeout:
+            rec.timeout()
+            return None
+        kind2 = asan_kind(obs2.stderr) if not (obs2.undefined or obs2.gen_error or obs2.compile_error) else None
+        if kind2 and kind2.startswith("asan-"):
+            rec.violation(f"sanitizer:{kind2}:once-the-bounds-check-is-off", obs2.stderr[-1800:], wit)
+            return False
         rec.count("runtime_errors_unrelated_to_storage(C03 territory)")
         return None
     if kind:
